@@ -26,7 +26,9 @@ MANIFEST = {
             "i >= 5 (kill path saves the pre-iteration state under i-1), continue on exactly the uninterrupted trajectory "
             "(parameters, optimiser state, last_epoch hence all later learning rates, scaler); for i < 5 nothing is saved; "
             "every history of processes ended by disappearance, SIGINT or a crash inside a checkpoint save ends in the "
-            "uninterrupted final state (k = 1). Schedulers are closed forms of last_epoch. Tied to the code by the translated "
+            "uninterrupted final state, for every k >= 1 provided each resume finds a 'latest' label t with (t+1) % k = 0 "
+            "(vacuous for k = 1); otherwise exactly: the resumed process continues from the uninterrupted state with an "
+            "empty accumulator and its first step uses div_(k) of the k-r post-resume gradients (misaligned_resume). Schedulers are closed forms of last_epoch. Tied to the code by the translated "
             "statement table of save (+ decided well-formedness), translated resume / kill-path / interval arithmetic and "
             "scheduler formulas, strace of a real save, real load('latest') on every materialised crash state, and real "
             "Engine.train histories with real SIGINTs compared exactly with the model.",
@@ -530,6 +532,8 @@ def check_history(c, stops, procs=None):
     """the property on a real history: every process resumes, and from each resume on the trajectory (parameters after
     every iteration, logged learning rates, final optimiser state) is bit-for-bit the one of the uninterrupted run"""
     procs = procs if procs is not None else run_history(c, stops)
+    if any("failed" not in r and r["start"] % c["k"] != 0 for r in procs):
+        return "misaligned"      # some process resumed inside an accumulation window: known finding, reported under C16
     full = toy.real_uninterrupted(c)
     kinds = "+".join(sorted({["", "vanish", "kill", "crash"][s[0]] for s in stops}))
     for i, r in enumerate(procs):
@@ -649,26 +653,32 @@ def oracle(ctx: Ctx, deep: bool = False):
                             f"save then load('latest') does not restore: {bad}", {"op": "roundtrip", "opt": ok, "sched": sk,
                                                                                  "seed": ctx.seed, "index": i})
     # (c) interrupted histories vs the uninterrupted run, bit for bit (k = 1)
-    hs = [(c, s, p) for c, s, p in st["histories"] if c["k"] == 1]
+    hs = list(st["histories"])
     for i in range(ctx.budget(14, 150) + (60 if deep else 0)):
         opt = [("adam",), ("sgd", Fr(1, 2)), ("adam",)][i % 3]
-        c, stops = gen_history(rng, k=1, opt=opt, tmax=60 if (ctx.thorough or deep) and i % 3 == 0 else 16)
+        kk = 1 if i % 4 else rng.choice([2, 3])
+        c, stops = gen_history(rng, k=kk, opt=opt, tmax=60 if (ctx.thorough or deep) and i % 3 == 0 else 16)
+        if kk > 1:     # SIGINTs at window boundaries (and anything else: misaligned histories are recognised and skipped)
+            stops = [[2, max(5, s[1] - s[1] % kk + (kk if s[1] % kk else 0)) if s[1] - s[1] % kk + kk < c["T"] else s[1], s[2] % 2]
+                     if rng.random() < 0.8 else s for s in stops]
         if i % 2:
             c["sched"] = dict(c["sched"], kind="cosine", max_iters=c["T"], gamma=Fr(1, 10), wf=Fr(1, 1000))
         hs.append((c, stops, None))
     for c, stops, procs in hs:
         ctx.count(("history", toy.proto("h", toy.toy_groups(c, [c["ck"]])), str(c["opt"]), c["sched"]["kind"], str(stops)),
                   any(s[1] >= 5 for s in stops),
-                  bucket=f"oracle/history/{c['opt'][0]}/{c['sched']['kind']}/" + "+".join(sorted({['', 'vanish', 'kill', 'crash'][s[0]] for s in stops})))
+                  bucket=f"oracle/history/k{c['k']}/{c['opt'][0]}/{c['sched']['kind']}/" + "+".join(sorted({['', 'vanish', 'kill', 'crash'][s[0]] for s in stops})))
         bad = check_history(c, stops, procs)
-        if bad:
+        if bad == "misaligned":
+            ctx.hist["oracle/history/misaligned-skipped"] = ctx.hist.get("oracle/history/misaligned-skipped", 0) + 1
+        elif bad:
             yield Violation(bad[0], bad[1], _hist_replay(c, stops))
 
 
 def replay(rep: dict) -> bool:
     if rep.get("op") == "history":
         c = toy._cfg_from_replay(rep)
-        return check_history(c, rep["stops"]) is not None
+        return check_history(c, rep["stops"]) not in (None, "misaligned")
     if rep.get("op") == "crash":
         ctx = Ctx(PROP, "quick", 0)
         prepare(ctx)
